@@ -606,6 +606,10 @@ def stratum_same_adapter(chk, env, n):
                 # same number of rules and same field widths every time -> same byte length
                 pol = {"p": [[rng.choice(vals[:4]), rng.choice(vals[:4]), rng.choice(vals[:4])] for _ in range(3)],
                        "g": [[rng.choice(vals[:4]), rng.choice(vals[:4])] for _ in range(2)]}
+                if step > 0 and ak != "string" and rng.random() < 0.3:
+                    # the EMPTY policy saved over a store that holds rules (the string adapter refuses an empty text by design:
+                    # listed finding C10/string_adapter_empty_policy)
+                    pol = {"p": [], "g": []}
                 e.clear_policy()
                 for pt, rules in pol.items():
                     e.model.model[pt[0]][pt].policy = [list(r) for r in rules]
